@@ -8,6 +8,12 @@ modes:  unparse   -- every module is replaced by ast.unparse(ast.parse(src))
                      (parameters, attributes, globals and names used in
                      nested functions are left alone)
         rename-some[-<seed>] -- a random half of them
+        extract-return -- 'return EXPR' becomes 'result_x = EXPR; return
+                     result_x'
+        swap -- adjacent independent assignments with call-free right-hand
+                     sides change places
+        noop-first -- a no-op expression statement is put at the start of
+                     every function body
         if-invert -- every plain if/else has its test negated and its
                      branches swapped
 """
@@ -94,6 +100,91 @@ class IfInverter(ast.NodeTransformer):
         return node
 
 
+class ReturnExtractor(ast.NodeTransformer):
+    """return EXPR  ->  result_x = EXPR; return result_x  (non-trivial EXPR,
+    outside generators / nested scopes that already use the name)"""
+
+    def visit_FunctionDef(self, node):
+        self.generic_visit(node)
+        used = {n.id for n in ast.walk(node) if isinstance(n, ast.Name)}
+        if "result_x" in used:
+            return node
+
+        def fix(body):
+            out = []
+            for st in body:
+                for fld in ("body", "orelse", "finalbody"):
+                    b = getattr(st, fld, None)
+                    if isinstance(b, list) and b and isinstance(
+                            b[0], ast.stmt) and not isinstance(
+                                st, (ast.FunctionDef, ast.ClassDef)):
+                        setattr(st, fld, fix(b))
+                for h in getattr(st, "handlers", []) or []:
+                    h.body = fix(h.body)
+                if isinstance(st, ast.Return) and st.value is not None and \
+                        not isinstance(st.value, (ast.Name, ast.Constant)):
+                    out.append(ast.Assign([ast.Name("result_x", ast.Store())],
+                                          st.value))
+                    out.append(ast.Return(ast.Name("result_x", ast.Load())))
+                else:
+                    out.append(st)
+            return out
+        node.body = fix(node.body)
+        return node
+
+
+def _pure(e):
+    return all(isinstance(n, (ast.Name, ast.Constant, ast.Attribute,
+                              ast.BinOp, ast.UnaryOp, ast.Compare, ast.Tuple,
+                              ast.List, ast.Load, ast.operator, ast.unaryop,
+                              ast.cmpop, ast.boolop, ast.BoolOp, ast.expr_context))
+               for n in ast.walk(e))
+
+
+class Swapper(ast.NodeTransformer):
+    """adjacent independent assignments with call-free right-hand sides
+    change places"""
+
+    def generic_visit(self, node):
+        super().generic_visit(node)
+        for fld in ("body", "orelse", "finalbody"):
+            blk = getattr(node, fld, None)
+            if not (isinstance(blk, list) and len(blk) >= 2 and
+                    isinstance(blk[0], ast.stmt)):
+                continue
+            i = 0
+            while i + 1 < len(blk):
+                a, b = blk[i], blk[i + 1]
+                if isinstance(a, ast.Assign) and isinstance(b, ast.Assign) \
+                        and len(a.targets) == 1 and len(b.targets) == 1 and \
+                        isinstance(a.targets[0], ast.Name) and \
+                        isinstance(b.targets[0], ast.Name) and \
+                        _pure(a.value) and _pure(b.value):
+                    an, bn = a.targets[0].id, b.targets[0].id
+                    names_a = {n.id for n in ast.walk(a.value)
+                               if isinstance(n, ast.Name)}
+                    names_b = {n.id for n in ast.walk(b.value)
+                               if isinstance(n, ast.Name)}
+                    if an != bn and an not in names_b and bn not in names_a:
+                        blk[i], blk[i + 1] = b, a
+                        i += 2
+                        continue
+                i += 1
+        return node
+
+
+class NoopInserter(ast.NodeTransformer):
+    """a no-op expression statement after the docstring of every function"""
+
+    def visit_FunctionDef(self, node):
+        self.generic_visit(node)
+        i = 1 if (node.body and isinstance(node.body[0], ast.Expr) and
+                  isinstance(node.body[0].value, ast.Constant) and
+                  isinstance(node.body[0].value.value, str)) else 0
+        node.body.insert(i, ast.Expr(ast.Constant(None)))
+        return node
+
+
 def rewrite(mode, tmp):
     root = os.path.join(tmp, "src", "chameleon")
     for dp, dn, fns in os.walk(root):
@@ -105,6 +196,13 @@ def rewrite(mode, tmp):
             tree = ast.parse(src)
             if mode == "rename":
                 tree = Renamer().visit(tree)
+            elif mode == "extract-return":
+                tree = ast.fix_missing_locations(
+                    ReturnExtractor().visit(tree))
+            elif mode == "swap":
+                tree = ast.fix_missing_locations(Swapper().visit(tree))
+            elif mode == "noop-first":
+                tree = ast.fix_missing_locations(NoopInserter().visit(tree))
             elif mode == "if-invert":
                 tree = ast.fix_missing_locations(IfInverter().visit(tree))
             elif mode.startswith("rename-some"):
